@@ -87,9 +87,13 @@ pub fn run_case(algo: &str, entry: &str, len: usize, s0: [usize; 4], s1: [usize;
             "Radix3" => Arc::new(Radix3::new_with_base(1, m0)),
             "RadixN" => rustfft::verif_hooks::new_radixn(&[2, 3], m0),
             // the crate-private SIMD algorithms, through hook constructors
+            #[cfg(feature = "avx")]
             "AvxMixedRadix" => rustfft::verif_hooks::avx_algo_f64(&format!("mr{}", len / s0[0].max(1)), len, m0).expect("avx"),
+            #[cfg(feature = "avx")]
             "AvxRaders" => rustfft::verif_hooks::avx_algo_f64("raders", len, m0).expect("avx2"),
+            #[cfg(feature = "avx")]
             "AvxBluesteins" => rustfft::verif_hooks::avx_algo_f64("bluesteins", len, m0).expect("avx"),
+            #[cfg(feature = "sse")]
             "SseRadix4" => rustfft::verif_hooks::sse_radix4_f64(1, m0).expect("sse"),
             _ => panic!("bad algo"),
         }
@@ -160,6 +164,13 @@ pub fn run(args: &[String]) {
     for i in 0..count {
         let algo = ["MixedRadix", "MixedRadixSmall", "GoodThomas", "GoodThomasSmall", "Raders", "Bluesteins", "Radix4", "Radix3", "RadixN",
             "AvxMixedRadix", "AvxRaders", "AvxBluesteins", "SseRadix4"][i % 13];
+        // the crate-private SIMD algorithms exist only when their cargo feature is compiled in (and need the CPU features at run time)
+        if algo.starts_with("Avx") && !(cfg!(feature = "avx") && std::is_x86_feature_detected!("avx2") && std::is_x86_feature_detected!("fma")) {
+            continue;
+        }
+        if algo.starts_with("Sse") && !(cfg!(feature = "sse") && std::is_x86_feature_detected!("sse4.1")) {
+            continue;
+        }
         let entry = ["inplace", "oop", "immut"][(i / 13) % 3];
         let (len, s0, s1): (usize, [usize; 4], [usize; 4]) = match algo {
             "MixedRadix" | "MixedRadixSmall" | "GoodThomas" | "GoodThomasSmall" => {
